@@ -26,7 +26,9 @@ ANCHORS = {'NmVerif.NN.convnd': 'view::convnd (index::conv_reshape_input/weight/
 ASSUMPTIONS = ['shape_pool2d computes in float32: exact only while (n-k)/s is representable (extents < 2^24)',
                'floating-point tolerance (4 ulp x terms) is a harness statement, not a Lean statement',
                'PyTorch itself is not available: the reference is lib/nn_ref_c17.py written from the documented formulas']
-PARTIAL = []
+PARTIAL = ['conv2d with pair-form arguments (s_h,s_w) / (p_h,p_w) / (d_h,d_w): no theorem (conv2d_eq_code_loop covers None | int forms); model correspondence + oracle only',
+           'softmax, softmin, batch/layer/instance/group norm, linear, bilinear, pairwise_distance, cosine_similarity: no Lean theorem (compositions of the C06-C08 pieces over opaque real operations); oracle comparison only',
+           'max/avg pooling: theorems cover output shape and the window element set handed to the reducer; the reduction itself (reduce_maximum / mean) is compared with the oracle only']
 MANIFEST = dict(
     text='Proof of output-shape formulas and term selection of conv/pooling in Lean for all parameters + differential run of every named routine against a nested-loop reference.',
     note='Lean kernel + propext/Classical.choice/Quot.sound; hand-written model tied to the headers by the correspondence run; float tolerance is the harness\'s.',
@@ -255,7 +257,7 @@ def conv_case(rng, nsp, N, C, g, O, sp, ks, s, p, d, bias, forms, dt='f', model=
         h = H_C2B if bias else H_C2A
     c = Case(req, h, oracle=oracle, model=model, nontrivial=nontriv, tags=tags)
     # on-domain = where the Lean theorems say MODEL = SPEC: batch 1 and (groups = 1 or one output channel per group), equal dilation pair
-    c.dom = not (k_conv_batch(c) or k_conv_groups(c) or k_conv2d_dilation_pair(c))
+    c.dom = not (k_conv_batch(c) or k_conv_groups(c) or k_conv2d_dilation_pair(c)) and 'pair' not in forms
     return c
 
 
@@ -543,9 +545,57 @@ def gen_linear(tier, rng):
                            tags=['cosine_similarity', 'rank=%d' % rank, 'axis=%d' % axis], cmp=close_cmp(sa[axis] + 8, 1.0))
 
 
+def _arr(a, key, dtype=float):
+    shape = ints(a[key + 's'])
+    vals = [dtype(t) for t in a[key].split(',')]
+    return np.array(vals, dtype=object if dtype is int else np.float64).reshape(shape)
+
+
+def _opt(v):
+    if v == 'None':
+        return None
+    t = ints(v)
+    return t[0] if len(t) == 1 else t
+
+
+def oracle_for(req):
+    """reference answer for a request line of this property (None when the reference rejects the arguments)"""
+    op = req.split(' ')[0]
+    a = argstr(req)
+    try:
+        if op in ('conv1d', 'conv2d'):
+            b = None if a['b'] == 'None' else [int(t) for t in a['b'].split(',')]
+            return fres(ref.convnd(_arr(a, 'x', int), _arr(a, 'w', int), b, _opt(a['stride']), _opt(a['padding']), _opt(a['dilation']), int(a['groups'])))
+        if op == 'pool_shape':
+            return 'ok ' + fmt(ref.pool_windows(ints(a['shape']), ints(a['kernel']), ints(a['stride']), a['ceil'] == '1')[0])
+        if op in ('max_pool2d', 'avg_pool2d'):
+            return fres(ref.pool2d(_arr(a, 'x'), ints(a['kernel']), ints(a['stride']), a['ceil'] == '1', op[:3]))
+        if op == 'batch_norm':
+            f = lambda k: [float(t) for t in a[k].split(',')]
+            return fres(ref.batch_norm(_arr(a, 'x'), f('m'), f('v'), f('w'), f('b')))
+    except ref.RefError:
+        return None
+    return None
+
+
+def gen_witnesses(tier, rng):
+    """the witness of every known finding is re-executed on every run"""
+    import json
+    path = os.path.join(os.path.dirname(os.path.dirname(os.path.dirname(os.path.abspath(__file__)))), 'known', 'C17.json')
+    hmap = {'conv1d': H_C1, 'pool_shape': H_POOL, 'max_pool2d': H_POOL, 'avg_pool2d': H_POOL, 'batch_norm': H_NORM}
+    for e in json.load(open(path)):
+        req = e['witness']
+        op = req.split(' ')[0]
+        h = hmap.get(op) or (H_C2A if argstr(req)['b'] == 'None' else H_C2B)
+        o = oracle_for(req)
+        cmpf = close_cmp(8, 8.0) if op in ('batch_norm', 'avg_pool2d') else None
+        yield Case(req, h, oracle=o, dom=False, model=op in ('conv1d', 'conv2d', 'pool_shape') and not k_conv_batch(Case(req, h)),
+                   tags=['witness', 'witness:' + e['id']], cmp=cmpf)
+
+
 def gen(tier, rng):
     only = os.environ.get('C17_ONLY')
-    parts = [('conv1d', gen_conv1d), ('conv2d', gen_conv2d), ('pool', gen_pool), ('softmax', gen_softmax), ('norms', gen_norms), ('linear', gen_linear)]
+    parts = [('witness', gen_witnesses), ('conv1d', gen_conv1d), ('conv2d', gen_conv2d), ('pool', gen_pool), ('softmax', gen_softmax), ('norms', gen_norms), ('linear', gen_linear)]
     for name, g in parts:
         if only and name not in only.split(','):
             continue
